@@ -179,7 +179,7 @@ pub enum SeekTy {
 }
 pub const ALL_SEEKTY: [SeekTy; 5] = [SeekTy::I32, SeekTy::U32, SeekTy::U64, SeekTy::U128, SeekTy::Usize];
 impl SeekTy {
-    pub fn max(self) -> u128 {
+    pub fn max_val(self) -> u128 {
         match self {
             SeekTy::I32 => i32::MAX as u128,
             SeekTy::U32 => u32::MAX as u128,
